@@ -39,14 +39,14 @@ def BindGood (t : State) (pod : Pod) (sn : Subnet) (ch : Choice) (o : Out) : Pro
 
 theorem bind_finish (F : Facts) {t : State} {ns name : String} {pod : Pod} {uid : Nat} (node : String)
     (hs : BindScene t ns name pod uid) (ch : Choice) (infos : List (Option IP))
-    (hi : bindInfos t pod ch = some infos) (hu : (F.bindChecksUID && uidConflict t pod infos) = false)
+    (hi : bindInfos t pod ch = some infos) (hu : (F.bindChecksUID && uidConflict F t pod infos) = false)
     (t2 : State) (infos2 : List (Option IP))
     (hA : bindAlloc t pod node { policy := policyOf pod, node := node, uid := pod.uid } infos ch.pick = (t2, .ok, infos2))
     (hc2 : Coherent t2) (fr : Frame t t2)
     (hown : ∀ ip, ip ∈ infos2.filterMap id → ip ∈ infos.filterMap id → Owns t2 (keyOf pod) ip) :
     (bind F t ns name uid node ch).2.res = .ok ∧
       (bind F t ns name uid node ch).2.ips = (infos2.filterMap id).map (toHInfo t) := by
-  rw [bind_eq F t ns name uid node ch pod hs.lister hs.wants infos hi hu _ hA]
+  rw [bind_eq F t ns name uid node ch pod hs.lister hs.wants hs.uid infos hi hu _ hA]
   dsimp only
   have hl := bindLoop_ok (keyOf pod) node { policy := policyOf pod, node := node, uid := pod.uid }
     (infos.filterMap id) (infos2.filterMap id) t2 hc2 (hs.nf.of_frame fr) hown
@@ -91,7 +91,7 @@ theorem bind_good (F : Facts) {t : State} {ns name : String} {pod : Pod} {uid : 
   have hn := hs.coh.allocNodup
   cases hi : bindInfos t pod ch with
   | none =>
-    refine Or.inl ⟨bind_bad F t ns name uid node ch pod hs.lister hs.wants hi, ?_⟩
+    refine Or.inl ⟨bind_bad F t ns name uid node ch pod hs.lister hs.wants hs.uid hi, ?_⟩
     unfold bindInfos at hi
     split at hi
     · rename_i hcond
@@ -102,8 +102,8 @@ theorem bind_good (F : Facts) {t : State} {ns name : String} {pod : Pod} {uid : 
       rw [e] at hcond; simp at hcond
     · cases hi
   | some infos =>
-    cases hu : (F.bindChecksUID && uidConflict t pod infos) with
-    | true => exact Or.inr (Or.inl (bind_waiting F t ns name uid node ch pod hs.lister hs.wants infos hi hu))
+    cases hu : (F.bindChecksUID && uidConflict F t pod infos) with
+    | true => exact Or.inr (Or.inl (bind_waiting F t ns name uid node ch pod hs.lister hs.wants hs.uid infos hi hu))
     | false =>
       by_cases hre : pod.ranges = []
       · -- no ranges requested
@@ -136,7 +136,7 @@ theorem bind_good (F : Facts) {t : State} {ns name : String} {pod : Pod} {uid : 
               { policy := policyOf pod, node := node, uid := pod.uid } ch.pick hcne with ⟨hbad, hno⟩ | ⟨ip, _, hipc, hok, halloc⟩
           · left
             refine ⟨?_, hre, Or.inr ⟨hk, hno⟩⟩
-            rw [bind_eq F t ns name uid node ch pod hs.lister hs.wants [] hi hu _ hAeq]
+            rw [bind_eq F t ns name uid node ch pod hs.lister hs.wants hs.uid [] hi hu _ hAeq]
             simp only [hbad]
             rfl
           · right; right
